@@ -277,7 +277,7 @@ func (c *Ctx) MonitorFail(prop, sig, what string, replay any) {
 			return // one replay per signature is enough
 		}
 	}
-	if len(c.Res.MonitorFailures) < 50 {
+	if len(c.Res.MonitorFailures) < 2000 {
 		c.Res.MonitorFailures = append(c.Res.MonitorFailures, MonitorFailure{prop, sig, what, replay})
 	}
 }
